@@ -71,3 +71,23 @@ package rbac
 //@ func (*neverMatcher).match
 //@   prop C48
 //@   ensures !result
+
+// A header rule is exactly its header matcher (C47) applied to the request's
+// metadata: no second inversion, so an absent header never satisfies a value
+// matcher even when invert_match is set (invert is handed to the matcher, which
+// applies it only to present headers).
+//@ func (*headerMatcher).match
+//@   prop C48
+//@   assert at call Match#1 recv == hm.matcher
+//@   ensures result == (lastret("Match") == 1)
+
+//@ func newHeaderMatcher
+//@   prop C48
+//@   assert at call NewHeaderExactMatcher#1 arg0 == headerMatcherConfig.Name && arg2 == headerMatcherConfig.InvertMatch
+//@   assert at call NewHeaderRegexMatcher#1 arg0 == headerMatcherConfig.Name && arg2 == headerMatcherConfig.InvertMatch
+//@   assert at call NewHeaderRangeMatcher#1 arg0 == headerMatcherConfig.Name && arg3 == headerMatcherConfig.InvertMatch
+//@   assert at call NewHeaderPresentMatcher#1 arg0 == headerMatcherConfig.Name && arg2 == headerMatcherConfig.InvertMatch
+//@   assert at call NewHeaderPrefixMatcher#1 arg0 == headerMatcherConfig.Name && arg2 == headerMatcherConfig.InvertMatch
+//@   assert at call NewHeaderSuffixMatcher#1 arg0 == headerMatcherConfig.Name && arg2 == headerMatcherConfig.InvertMatch
+//@   assert at call NewHeaderContainsMatcher#1 arg0 == headerMatcherConfig.Name && arg2 == headerMatcherConfig.InvertMatch
+//@   assert at call NewHeaderStringMatcher#1 arg0 == headerMatcherConfig.Name && arg2 == headerMatcherConfig.InvertMatch
